@@ -472,6 +472,16 @@ func simplifyPhis(newPhis BlockMap[[]newPhi]) {
 			}
 		}
 	}
+
+	// 'live' was only borrowed to mark the phis that have been replaced;
+	// clear it again so that markLiveNodes computes liveness from scratch
+	// and the replaced phis are removed instead of being kept as dead
+	// instructions whose operands may no longer exist.
+	for _, npList := range newPhis {
+		for _, np := range npList {
+			np.phi.live = false
+		}
+	}
 }
 
 type BlockSet struct {
